@@ -1,5 +1,6 @@
 import Toxi.Driver.E1
 import Toxi.Driver.E2
+import Toxi.Driver.E3
 import Toxi.Driver.E4
 /-
 Model driver: reads one protocol line per operation on stdin, answers one line on stdout.
@@ -26,6 +27,12 @@ partial def loopR {Ïƒ : Type} (hin hout : IO.FS.Stream) (init : Ïƒ) (step : Ïƒ â
   let l := line.trimAscii.toString
   if l == "reset" then
     hout.putStrLn "ok"; hout.flush; loopR hin hout init step init
+  else if l.startsWith "try " then
+    -- answer without committing the operation
+    let (_, out) := step s (l.drop 4).toString
+    hout.putStrLn out
+    hout.flush
+    loopR hin hout init step s
   else
     let (s', out) := step s l
     hout.putStrLn out
@@ -37,6 +44,7 @@ def main (args : List String) : IO UInt32 := do
   let hout â† IO.getStdout
   match args with
   | ["e1"] => loopR hin hout E1.init E1.step E1.init; return 0
+  | ["e3"] => loopR hin hout E3.init E3.step E3.init; return 0
   | ["e4"] => loopR hin hout E4.init E4.step E4.init; return 0
   | ["e2"] => loopR hin hout E2.init E2.step E2.init; return 0
   | _ => IO.eprintln "usage: driver e1|..."; return 2
